@@ -4,9 +4,12 @@ import (
 	"encoding/json"
 	"fmt"
 	"os"
+	"runtime"
 	"sort"
 	"strconv"
 	"strings"
+	"sync"
+	"sync/atomic"
 
 	"github.com/AliyunContainerService/terway/pkg/aliyun/client"
 )
@@ -29,14 +32,15 @@ func (r *recGen) PutBack(h, u string)         {}
 type c16State struct {
 	gen                  *client.SimpleIdempotentKeyGenerator
 	cap                  int
-	tokID                map[string]int    // uuid -> canonical number (first appearance)
-	hashID               map[string]int    // md5 -> canonical number
-	api                  *c16API           // OpenAPI wrappers over a scripted transport (c16api.go)
-	lastGen, lastGenHash string            // what the generator issued last, and for which hash
-	apiFailed            map[string]string // hash -> token of the failed API call that has not been retried yet
-	fp                   string            // fingerprint of the request the last builder produced (request as sent, token removed)
-	hashFP               map[string]string // md5 -> fingerprint of the first request that hashed to it
-	fpHash               map[string]string // fingerprint -> md5
+	tokID                map[string]int             // uuid -> canonical number (first appearance)
+	hashID               map[string]int             // md5 -> canonical number
+	api                  *c16API                    // OpenAPI wrappers over a scripted transport (c16api.go)
+	lastGen, lastGenHash string                     // what the generator issued last, and for which hash
+	apiFailed            map[string]string          // hash -> token of the failed API call that has not been retried yet
+	parToks              map[string]map[string]bool // hash -> tokens rolled back concurrently and not re-issued yet
+	fp                   string                     // fingerprint of the request the last builder produced (request as sent, token removed)
+	hashFP               map[string]string          // md5 -> fingerprint of the first request that hashed to it
+	fpHash               map[string]string          // fingerprint -> md5
 	// monitor state
 	out      map[string]bool   // tokens in flight
 	prov     map[string]string // token -> hash of first issue
@@ -314,6 +318,78 @@ func c16Exec(c *Ctx, ops []string) []string {
 				return "ok"
 			case "tok.gen":
 				return s.tokName(s.generate(c, "H"+f[1], trace))
+			case "tok.par":
+				// n concurrent issue + roll-back pairs for one hash (requests with equal parameters failing at the same time):
+				// afterwards every one of the n tokens is available for a retry
+				n, err := strconv.Atoi(f[2])
+				if err != nil || n < 2 || n > 16 {
+					return "bad-op"
+				}
+				h := "H" + f[1]
+				toks := make([]string, n)
+				// phase 1: n requests are issued at the same time; phase 2 (all of them are in flight): they all fail at the same time
+				for _, phase := range []int{1, 2} {
+					var wg sync.WaitGroup
+					var ready int32
+					for k := 0; k < n; k++ {
+						wg.Add(1)
+						go func(k int) {
+							defer wg.Done()
+							runtime.LockOSThread()
+							defer runtime.UnlockOSThread()
+							atomic.AddInt32(&ready, 1)
+							for atomic.LoadInt32(&ready) < int32(n) { // spin: all n calls start within nanoseconds of each other
+							}
+							if phase == 1 {
+								toks[k] = s.gen.GenerateKey(h)
+							} else {
+								s.gen.PutBack(h, toks[k])
+							}
+						}(k)
+					}
+					wg.Wait()
+				}
+				seen := map[string]bool{}
+				for _, u := range toks {
+					if seen[u] {
+						c.Violate("C16/inflight-shared", "two concurrent requests were issued the same token "+s.tokName(u), trace...)
+					}
+					seen[u] = true
+					s.tokName(u) // numbered in slot order: the model numbers n fresh tokens
+					if s.parToks == nil {
+						s.parToks = map[string]map[string]bool{}
+					}
+					if s.parToks[h] == nil {
+						s.parToks[h] = map[string]bool{}
+					}
+					s.parToks[h][u] = true
+					if _, ok := s.prov[u]; !ok {
+						s.prov[u] = h
+					}
+				}
+				return "ok"
+			case "tok.drain":
+				// n issues for one hash: which tokens come out (as a set)
+				n, err := strconv.Atoi(f[2])
+				if err != nil || n < 1 || n > 16 {
+					return "bad-op"
+				}
+				var names []string
+				for k := 0; k < n; k++ {
+					u := s.generate(c, "H"+f[1], trace)
+					// property-level: all of the hash's tokens rolled back concurrently are available; a retry that draws a fresh one
+					// although rolled-back tokens of its hash are left means a roll-back was lost
+					if set := s.parToks["H"+f[1]]; len(set) > 0 {
+						if !set[u] {
+							c.Violate("C16/retry-token/concurrent-rollback-lost", fmt.Sprintf("after concurrent roll-backs for hash H%s a retry drew the fresh token %s although %d rolled-back tokens of that hash had not been re-issued: a roll-back was lost", f[1], s.tokName(u), len(set)), trace...)
+						} else {
+							delete(set, u)
+						}
+					}
+					names = append(names, s.tokName(u))
+				}
+				sort.Strings(names)
+				return strings.Join(names, ",")
 			case "tok.put":
 				n, _ := strconv.Atoi(f[2])
 				s.putBack("H"+f[1], s.tokByNum(n))
@@ -555,6 +631,16 @@ func c16Run(c *Ctx) {
 			fmt.Sprintf("tok.heflo %s %s %s", base.line()[:strings.LastIndex(base.line(), " ")], hexStr(Pick(r, []string{"i-1", ""})), hexStr(Pick(r, []string{"z1", ""}))))
 		c.Count("hash-builder-case")
 		add(ops, len(base.tags) >= 2)
+	}
+	// (a') concurrent roll-backs: n requests with equal parameters fail at the same time, then n retries
+	for i := 0; i < c.Scale(60, 600); i++ {
+		n := 2 + r.Intn(7)
+		ops := []string{"tok.new 500", fmt.Sprintf("tok.par 0 %d", n), fmt.Sprintf("tok.drain 0 %d", n)}
+		if r.Chance(50) {
+			ops = append(ops, fmt.Sprintf("tok.par 1 %d", n), fmt.Sprintf("tok.par 0 %d", 2+r.Intn(4)), fmt.Sprintf("tok.drain 1 %d", n))
+		}
+		c.Count("concurrent-rollback")
+		add(ops, true)
 	}
 	// (c) request flows through Finish + the real generator: fail / retry histories with tag maps
 	for i := 0; i < c.Scale(200, 3000); i++ {
